@@ -176,6 +176,24 @@ def scenario_backup_close_fault(exe, workroot):
     return False, 'failed close of the backup: exit status %d, a.c %s' % (rc, 'untouched' if now == SRC else 'replaced, backup complete')
 
 
+def scenario_corrupt_md5_file(exe, workroot):
+    """C13/C14: whatever FILE.unc-backup.md5~ contains, a file that is rewritten gets its backup"""
+    d = _tmp(workroot)
+    for junk in (b'a' * 120 + b'\n', b'0123456789abcdef' * 3 + b'  a.c\n', b'\n', b'zz\n'):
+        f = os.path.join(d, 'a.c')
+        open(f, 'wb').write(SRC)
+        open(f + '.unc-backup.md5~', 'wb').write(junk)
+        if os.path.exists(f + '.unc-backup~'):
+            os.unlink(f + '.unc-backup~')
+        cfg = _cfg(d, 'indent_with_tabs = 0\n')
+        rc, out, err = run(exe, ['-c', cfg, '--replace', f, '-q'])
+        now = open(f, 'rb').read()
+        bk = open(f + '.unc-backup~', 'rb').read() if os.path.exists(f + '.unc-backup~') else None
+        if now != SRC and bk != SRC:
+            return True, 'md5 file holding %r...: exit status %d, a.c rewritten but the backup %s' % (junk[:20], rc, 'does not exist' if bk is None else 'differs from the original')
+    return False, 'corrupt md5 files: the backup is written every time'
+
+
 def scenario_failed_backup(exe, workroot):
     """backup cannot be written (read-only directory is not portable as root): use a backup path that is a directory"""
     d = _tmp(workroot)
@@ -510,7 +528,7 @@ if __name__ == '__main__':
     sys.path.insert(0, os.path.dirname(os.path.abspath(__file__)))
     import gen
     gen.gen_options(os.environ.get('VERIF_REPO', '/repo'), os.path.join(w, 'gen'))
-    for sc in (scenario_backup_close_fault, scenario_md5_read_fault, scenario_bad_numbers, scenario_md5_after_rename, scenario_failed_close, scenario_failed_backup, scenario_check_truth, scenario_too_big, scenario_enum_roundtrip,
+    for sc in (scenario_corrupt_md5_file, scenario_backup_close_fault, scenario_md5_read_fault, scenario_bad_numbers, scenario_md5_after_rename, scenario_failed_close, scenario_failed_backup, scenario_check_truth, scenario_too_big, scenario_enum_roundtrip,
                scenario_gating_default, scenario_lang_leak, scenario_line_endings, scenario_encoding, scenario_whitespace_hygiene, scenario_ignored_region,
                scenario_blank_lines, scenario_sp_bool_site, lambda e, w_: scenario_spacing_option(e, w_, 'sp_arith')):
         try:
